@@ -103,6 +103,25 @@ def auto(site, prog):
                                 return "constant index %d under the dominating test len() == %d on the same collection" % (c0, k)
                 if c0 == 0 and a[0] == "bool" and a[2] is False and isinstance(a[1][0], tuple) and a[1][0][0] == "call" and a[1][0][1].rsplit("::", 1)[-1] == "is_empty" and a[1][0][2] and K.peel(a[1][0][2][0]) == base:
                     return "index 0 under the dominating test !is_empty() on the same collection"
+    if site.kind == "index" and t is not None and t[0] == "call" and len(t[2]) == 2:
+        # `self.xs[..self.n()]` where n() is `self.xs.len() - c` (a slice that ends c elements before the end of the very collection it is taken from)
+        base, ix = K.peel(t[2][0]), K.peel(t[2][1])
+        if isinstance(ix, tuple) and ix and ix[0] == "agg" and str(ix[1]).endswith(("ops::range::RangeTo", "ops::range::Range")) and isinstance(base, tuple) and base and base[0] == "field":
+            end = K.peel(dict(ix[3]).get("end"))
+            start = dict(ix[3]).get("start")
+            if (start is None or K.const_eval(start) == 0) and isinstance(end, tuple) and end and end[0] == "call" and end[1] in prog.bodies and len(end[2]) == 1:
+                cb = prog.bodies[end[1]]
+                rt = K.peel(cb.local_term(0))
+                # Sub / checked / saturating of len(self.<field>) and a constant
+                ok = False
+                for y in mir.walk(rt):
+                    if isinstance(y, tuple) and y and ((y[0] == "bin" and y[1].startswith("Sub")) or (y[0] == "call" and y[1].rsplit("::", 1)[-1] in ("saturating_sub", "wrapping_sub"))):
+                        ops = (y[2], y[3]) if y[0] == "bin" else tuple(y[2][:2])
+                        l0 = K.peel(ops[0])
+                        if isinstance(l0, tuple) and l0 and l0[0] == "call" and l0[1].rsplit("::", 1)[-1] == "len" and l0[2] and K.is_field(l0[2][0], base[2]) and K.const_eval(ops[1]) is not None:
+                            ok = True
+                if ok:
+                    return "slice up to %s(): the length of the same collection minus a constant" % end[1].rsplit("::", 1)[-1]
     if site.kind == "arith" and site.what == "add_assign Stake" and t is not None and t[0] == "call" and len(t[2]) == 2:
         # `let mut s = Stake::default(); for v in .. { s += v.stake }`: the loop spelling of `.map(|v| v.stake).sum::<Stake>()` - the same
         # additions in the same order; the sum of the stakes of distinct validators is at most the total stake, which EpochInfo::new summed
